@@ -100,6 +100,7 @@ trait ElemT: Sized {
     fn id(&self) -> u32;
 }
 trait ElemU: Sized {
+    const TRACKED: bool = true;
     fn new(id: u32) -> Self;
     fn id(&self) -> u32;
     fn touch(&mut self);
@@ -229,6 +230,7 @@ impl ElemT for Plain<0> {
     }
 }
 impl ElemU for Plain<1> {
+    const TRACKED: bool = false;
     fn new(id: u32) -> Self {
         Plain { id, payload: 0 }
     }
@@ -376,7 +378,7 @@ fn run<T: ElemT, U: ElemU>(sc: &Value, out: &mut Vec<String>) {
     let mismatch = std::mem::size_of::<T>() != std::mem::size_of::<U>()
         || std::mem::align_of::<T>() != std::mem::align_of::<U>();
     ev(json!({"ev":"scenario","sid":sc["sid"],"pair":sc["pair"],"n":n,"mismatch":mismatch,
-        "hasbuf":hasbuf,"zst":zst,"tracked":T::TRACKED,
+        "hasbuf":hasbuf,"zst":zst,"trackedT":T::TRACKED,"trackedU":U::TRACKED,
         "hooks":cfg!(truc_verif),"profile": if cfg!(debug_assertions) {"debug"} else {"release"},
         "sizeT":std::mem::size_of::<T>(),"alignT":std::mem::align_of::<T>(),
         "sizeU":std::mem::size_of::<U>(),"alignU":std::mem::align_of::<U>()}));
@@ -418,6 +420,8 @@ fn dispatch(sc: &Value, out: &mut Vec<String>) {
         "align64" => run::<Elem<0, Align64>, Elem<1, Align64>>(sc, out),
         "zst" => run::<Zst<0>, Zst<1>>(sc, out),
         "plain" => run::<Plain<0>, Plain<1>>(sc, out),
+        "drop_to_plain" => run::<Elem<0, ()>, Plain<1>>(sc, out),
+        "plain_to_drop" => run::<Plain<0>, Elem<1, ()>>(sc, out),
         // refused pairs
         "mm_size" => run::<Elem<0, ()>, Elem<1, u64>>(sc, out),
         "mm_align" => run::<Elem<0, ()>, A8>(sc, out),
